@@ -102,16 +102,33 @@ def start_index(R, ctx):
             any('Numbrs' in repr(x) for x in [ctx.f.bodies.get(b.path + '::promoted[0]') and ctx.f.bodies[b.path + '::promoted[0]'].pretty()])
     R.check('R06.2', f"{b.path}|lists-plain-and-gz", ok and numbrs, "iterates list_of_log_and_compressed_files(spec, Numbrs)",
             "get_highest_index does not derive the index from the listing of plain and compressed files with the number filter", where=b.loc())
-    # the number is parsed from the stem text up to the first '.': the stem of `x_r00003.log.gz` is `x_r00003.log`
-    parses = [(bb, t) for bb, t in b.calls() if callee_name(t) == 'core::str::<impl str>::parse']
-    cut = False
-    for bb, t in parses:
-        roots = p.op_roots(t['args'][0])
-        for r_ in roots:
-            if r_[0] in ('call', 'via') and re.search(r"::(split|split_once|find|strip_suffix|trim_end_matches|split_terminator)$|Split<.*>.*::next$", r_[1]):
-                tt = b.blocks[r_[2]]['term']
-                if any("'.'" in op_str(a) or '"."' in op_str(a) for a in tt['args']):
-                    cut = True
+    # the number is parsed from the stem text up to the first '.': the stem of `x_r00003.log.gz` is `x_r00003.log`.
+    # Scope: the function, its closures and the crate-local helpers it reaches (the listing excluded), so that an
+    # extracted helper or a filter_map closure is the same computation.
+    LIST = r'list_of_log_and_compressed_files$'
+    scope = [x for x in ctx.cg.reachable([b.path], spawn=False, stop={q for q in f.bodies if re.search(LIST, q)}) if x in f.bodies and not re.search(LIST, x)]
+    parses = []
+    cut = True
+    CUTTER = r"::(split|split_once|find|strip_suffix|trim_end_matches|split_terminator)$|Split<.*>.*::next$"
+    for q in sorted(scope):
+        qb = f.bodies[q]
+        for bb, t in qb.calls():
+            if callee_name(t) != 'core::str::<impl str>::parse':
+                continue
+            parses.append((q, bb))
+            this_cut = False
+            for (rp, r_) in ctx.ip.expand(q, ctx.ip.prov(q).op_roots(t['args'][0])):
+                if r_[0] in ('call', 'via') and re.search(CUTTER, r_[1]):
+                    tt = f.bodies[rp].blocks[r_[2]]['term']
+                    if any("'.'" in op_str(a_) or '"."' in op_str(a_) for a_ in tt['args']):
+                        this_cut = True
+                    # the split itself may iterate a Split value created earlier with the '.' pattern
+                    for (rp2, r2) in ctx.ip.expand(rp, ctx.ip.prov(rp).op_roots(tt['args'][0])):
+                        if r2[0] in ('call', 'via') and re.search(CUTTER, r2[1]):
+                            t2 = f.bodies[rp2].blocks[r2[2]]['term']
+                            if any("'.'" in op_str(a_) or '"."' in op_str(a_) for a_ in t2['args']):
+                                this_cut = True
+            cut = cut and this_cut
     R.check('R06.2', f"{b.path}|number-up-to-first-dot", bool(parses) and cut, "the parsed text is cut at the first '.'",
             "get_highest_index parses the number from the whole remainder of the file stem: for a compressed file `x_r00003.log.gz` the stem is `x_r00003.log`, `00003.log` does not parse "
             "and counts as 0 - after a restart with only compressed files the numbering restarts below them and a later compression overwrites an existing .gz", where=b.loc())
@@ -234,8 +251,8 @@ def collision_table(R, ctx):
     b = ctx.body(r'^parameters::file_spec::FileSpec::collision_free_infix_for_rotated_file$')
     EFF = [r'Path::exists$', r'FileSpec::list_of_files$', r'FileSpec::as_pathbuf$', r'PathBuf::set_extension$', r'::sort\w*$', r'Vec::<T, A>::pop$', r'core::str::<impl str>::parse$',
            r'Vec::<T, A>::len$', r'::collect$', r'fmt::format$', r'Iterator::(max|min|last|count)\w*$']
-    I = FDI(f, effects=EFF, no_inline=[r'FileSpec::list_of_files$', r'FileSpec::as_pathbuf$'])
-    rows = I.run(b.path)
+    I = FDI(f, effects=EFF, no_inline=[r'FileSpec::list_of_files$', r'FileSpec::as_pathbuf$'], no_models=[r'Iterator>?::(max|min)$'])
+    rows = I.run(b.path, arg_names=['self', 'infix'])
     n = 0
     for r in rows:
         if r.undecided:
@@ -243,6 +260,12 @@ def collision_table(R, ctx):
             return
         ex = [(a, v) for a, v in r.cond if a.startswith('std::path::Path::exists#')]
         sib_empty = next((v for a, v in r.cond if 'is_empty(' in a and 'collect#' in a), None)
+        # `match siblings.iter().max() { None => .., Some(latest) => .. }` examines the same fact
+        mx = next((v for a, v in r.cond if a.startswith('variant(') and re.search(r'Iterator>?::max#', a) and 'collect#' in r.long(a)), None)
+        if mx is not None:
+            if sib_empty is not None and sib_empty != (mx == 'None'):
+                continue            # infeasible: is_empty() and max() of the same vector disagree
+            sib_empty = (mx == 'None')
         sfx = r.get('variant(self.o_suffix)')
         key = f"suffix={sfx}|exists={[v for a, v in ex]}|siblings_empty={sib_empty}"
         res = r.long(repr(r.result))
@@ -286,8 +309,10 @@ def collision_table(R, ctx):
                 else:
                     pe = r.effects[int(m_.group(1)) - 1]
                     src = r.long(pe[1][0])
-                    if 'pop#' not in src or not any(n_.startswith('sort') for n_ in names) or names.index([n_ for n_ in names if n_.startswith('sort')][0]) > names.index('pop'):
-                        problems.append("the parsed sibling is not the maximum (sort, then pop) of the .restart siblings")
+                    by_sort = 'pop#' in src and any(n_.startswith('sort') for n_ in names) and names.index([n_ for n_ in names if n_.startswith('sort')][0]) < names.index('pop')
+                    by_max = re.search(r'Iterator>?::max#\d+\(', src) is not None and 'collect#' in src
+                    if not (by_sort or by_max):
+                        problems.append("the parsed sibling is not the maximum (sort then pop, or max()) of the .restart siblings")
                     if ".restart-'" not in src:
                         problems.append("the number is not taken from the text after `.restart-`")
         n += 1
